@@ -1,4 +1,5 @@
 import AmaranthVerif.Proofs.RtlilWF
+import AmaranthVerif.Model.Rtlil.SrcAttr
 import AmaranthVerif.Proofs.RtlilPrint
 import AmaranthVerif.Proofs.RtlilEmit
 
@@ -77,6 +78,62 @@ example : WellFormed demoDoc [] := wf_sound _ _ (check_of_verdict (by decide +ke
 example : verdict (demoDoc.map fun m => if m.name = "\\top.sub" then
     { m with connects := [(.one (.bit "\\x" 0), .one (.const [.b0]))] } else m) [] = some ("\\top.sub", .driverCount) := by
   decide +kernel
+
+/-- **Soundness of the validator with given `src` attributes.** The harness states the expected foreign instances with
+*all* their attributes, one literally named `src` included.  A document accepted by `checkAll` is well-formed with
+respect to the expected instances without their `\src` attributes (a generated source location on a cell is no
+part of the design), and every foreign cell for which the design itself gives a `\src` attribute carries exactly
+that one (`Spec/RtlilSrcAttr.GivenSrcKept`). -/
+theorem wf_src_sound (d : Doc) (exp : List Foreign) (h : checkAll d exp = .ok ()) :
+    WellFormed d (exp.map Foreign.design) ∧ GivenSrcKept d exp := by
+  unfold checkAll at h
+  split at h
+  · cases h
+  · rename_i hc
+    split at h
+    · cases h
+    · rename_i hf
+      refine ⟨wf_sound _ _ hc, ?_⟩
+      intro m hm c hc' f hf' ht hne
+      have h1 := List.find?_eq_none.mp hf m hm
+      simp only [Bool.not_eq_true, Bool.not_eq_false', List.all_eq_true] at h1
+      have h2 := h1 c hc'
+      simp only [cellSrcKeptB, List.all_eq_true] at h2
+      have h3 := h2 f hf'
+      simp only [Bool.or_eq_true, Bool.not_eq_true', beq_eq_false_iff_ne, ne_eq, List.isEmpty_iff, beq_iff_eq] at h3
+      rcases h3 with (h3 | h3) | h3
+      · exact absurd ht h3
+      · exact absurd h3 hne
+      · exact h3
+
+/-- the demo document with a foreign cell that carries the given `\src` and one more attribute -/
+def demoSrcDoc : Doc :=
+  demoDoc.map fun m => if m.name = "\\top.sub" then
+    { m with cells := m.cells ++ [⟨[⟨"\\src", .str "vendor.v:317"⟩, ⟨"\\keep", .int 1⟩], "\\BLK", "\\u", [], [("\\I", .one (.wire "\\x"))]⟩] }
+  else m
+
+def demoSrcExp : List Foreign :=
+  [⟨"\\BLK", [], [⟨"\\keep", .int 1⟩, ⟨"\\src", .str "vendor.v:317"⟩], [⟨"\\I", .input, 2, none⟩]⟩]
+
+def verdictAll (d : Doc) (exp : List Foreign) : Option (String × String) :=
+  match checkAll d exp with
+  | .ok _ => none
+  | .error e => some e
+
+theorem checkAll_of_verdict {d : Doc} {exp : List Foreign} (h : verdictAll d exp = none) : checkAll d exp = .ok () := by
+  unfold verdictAll at h
+  split at h
+  · rename_i u hu; cases u; exact hu
+  · cases h
+
+/-- non-vacuity (tests): the hypothesis holds on a document with a foreign cell carrying a given `\src`; a cell that
+carries a generated location instead is rejected by the new clause, and only by it -/
+example : verdictAll demoSrcDoc demoSrcExp = none := by decide +kernel
+example : GivenSrcKept demoSrcDoc demoSrcExp := (wf_src_sound _ _ (checkAll_of_verdict (by decide +kernel))).2
+example : verdictAll (demoSrcDoc.map fun m => { m with cells := m.cells.map fun c =>
+    { c with attrs := c.attrs.map fun a => if a.name = "\\src" then ⟨a.name, .str "/home/u/design.py:252"⟩ else a } }) demoSrcExp
+    = some ("\\top.sub", "given-src-attribute-kept") := by decide +kernel
+example : verdictAll demoSrcDoc [] = some ("\\top.sub", "cell-ports-params-widths-directions") := by decide +kernel
 
 /-- **Inputs are never driven from inside**: in a well-formed document no cell output, connect or
 process drives any bit of a module input. -/
